@@ -45,8 +45,14 @@ def scatterAddCounts (n : Nat) (ups : List (Int × Nat)) : List Nat :=
   (List.range n).map fun (p : Nat) =>
     (ups.filter fun (u : Int × Nat) => normIdx n u.1 = Int.ofNat p).foldl (fun a (u : Int × Nat) => a + u.2) 0
 
-/-- what `TransposeIndexRule.apply` computes as the diagonal of `P.T @ P` -/
+/-- what `TransposeIndexRule.apply` computes as the diagonal of `P.T @ P`:
+`index = where(index < 0, index + n, index)`, then `unique(size=n, fill_value=-1)`, then scatter-add -/
 def ruleCoverage (n : Nat) (index : List Int) : List Nat :=
+  scatterAddCounts n (uniqueSized (index.map (normIdx n)) n)
+
+/-- the same computation *without* the normalisation step: the code before the repair of finding F2
+(kept for the kernel-checked counterexample in FuraxProofs/Props/C12.lean) -/
+def ruleCoverageUnnormalised (n : Nat) (index : List Int) : List Nat :=
   scatterAddCounts n (uniqueSized index n)
 
 /-- the specification: multiplicity of each position among the (normalised) indices -/
